@@ -3,13 +3,19 @@
 package banner
 
 import (
+	"bufio"
 	"context"
 	"crypto/sha256"
 	"encoding/hex"
+	"fmt"
+	"io"
+	"net"
 	"net/http"
 	"net/http/httptest"
+	"net/http/httputil"
 	"net/url"
 	"strings"
+	"sync"
 	"testing"
 )
 
@@ -111,5 +117,87 @@ func TestVerifC14Banner(t *testing.T) {
 			"host": req.Host, "path": req.URL.Path, "url": req.URL.String(), "backend": br,
 			"status": res.StatusCode, "header": res.Header, "body_len": len(body), "body_sum": verifSum(body), "orig_sum": verifSum([]byte(br.Body)),
 			"has_banner": strings.Contains(string(body), "VERIF-BANNER"), "embeds_url": strings.Contains(string(body), "src=\""+req.URL.String()+"\"")})
+	}
+}
+
+// TestVerifC14Interim: backends that send informational responses before the final one, through the real chain
+// client -> httptest server -> banner.Proxy -> httputil.ReverseProxy -> raw TCP backend.  The final status must reach the
+// client; a 200 HTML page is framed, everything else arrives as the backend sent it.
+func TestVerifC14Interim(t *testing.T) {
+	out := verifOpenOut(t)
+	defer out.close()
+	type sc struct {
+		Interim []int  `json:"interim"`
+		Status  int    `json:"status"`
+		CType   string `json:"content_type"`
+		Body    string `json:"body"`
+	}
+	var cur sc
+	var mu sync.Mutex
+	ln, err := net.Listen("tcp", "127.0.0.1:0")
+	if err != nil {
+		t.Fatal(err)
+	}
+	defer ln.Close()
+	go func() {
+		for {
+			c, err := ln.Accept()
+			if err != nil {
+				return
+			}
+			go func(c net.Conn) {
+				defer c.Close()
+				br := bufio.NewReader(c)
+				for {
+					if _, err := http.ReadRequest(br); err != nil {
+						return
+					}
+					mu.Lock()
+					s := cur
+					mu.Unlock()
+					for _, code := range s.Interim {
+						fmt.Fprintf(c, "HTTP/1.1 %d %s\r\nLink: </s.css>; rel=preload\r\n\r\n", code, http.StatusText(code))
+					}
+					// chunked, not length-delimited: in the agent the response writer behind the banner forces chunked uploads, so a
+					// Content-Length of the original page never constrains the frame page; here net/http's server would enforce it
+					fmt.Fprintf(c, "HTTP/1.1 %d %s\r\nContent-Type: %s\r\nTransfer-Encoding: chunked\r\n\r\n", s.Status, http.StatusText(s.Status), s.CType)
+					if len(s.Body) > 0 {
+						fmt.Fprintf(c, "%x\r\n%s\r\n", len(s.Body), s.Body)
+					}
+					fmt.Fprintf(c, "0\r\n\r\n")
+				}
+			}(c)
+		}
+	}()
+	u, _ := url.Parse("http://" + ln.Addr().String())
+	h, err := Proxy(context.Background(), httputil.NewSingleHostReverseProxy(u), "<b>verif-banner</b>", "40px", "", nil)
+	if err != nil {
+		t.Fatal(err)
+	}
+	srv := httptest.NewServer(h)
+	defer srv.Close()
+	page := "<html><head></head><body>page</body></html>"
+	for ci, s := range []sc{{nil, 200, "text/html", page}, {[]int{103}, 200, "text/html", page}, {[]int{103}, 404, "text/html", "<html>not found</html>"}, {[]int{103}, 200, "application/json", `{"a":1}`},
+		{[]int{102}, 500, "text/plain", "boom"}, {[]int{103, 103}, 302, "text/html", ""}, {[]int{100}, 201, "text/html", page}} {
+		mu.Lock()
+		cur = s
+		mu.Unlock()
+		client := &http.Client{CheckRedirect: func(*http.Request, []*http.Request) error { return http.ErrUseLastResponse }}
+		req, _ := http.NewRequest("GET", srv.URL+"/p", nil)
+		req.Header.Set("Accept", "text/html,application/xhtml+xml")
+		res := map[string]interface{}{"kind": "interim", "index": ci, "backend": s}
+		resp, err := client.Do(req)
+		if err != nil {
+			res["err"] = err.Error()
+			out.emit(res)
+			continue
+		}
+		b, _ := io.ReadAll(resp.Body)
+		resp.Body.Close()
+		res["status"] = resp.StatusCode
+		res["content_type"] = resp.Header.Get("Content-Type")
+		res["body_is_backends"] = string(b) == s.Body
+		res["body_has_banner"] = strings.Contains(string(b), "verif-banner")
+		out.emit(res)
 	}
 }
